@@ -79,7 +79,8 @@ def shapeProbe (cs : List Char) : String :=
     let sh := if CShape ts then "shape=1" else "shape=0"
     match parse ts with
     | .error _ => sh ++ " parse=err"
-    | .ok e => sh ++ " parse=ok printeq=" ++ (if printToks e == ts then "1" else "0")
+    | .ok e => sh ++ " parse=ok printeq=" ++ (if printToks e == ts then "1" else "0") ++
+                 " canon=" ++ (if canonB e then "1" else "0")
 
 def step (_ : Unit) (toks : List String) : Unit × String :=
   match toks with
